@@ -95,24 +95,34 @@ def audit(pid):
             f.write(f"import BadsProofs.Props.{m}\n")
         for t in thms:
             f.write(f"#print axioms {t}\n")
-    p = subprocess.run(["lake", "env", "lean", afile], cwd=LEAN_DIR, stdout=subprocess.PIPE, stderr=subprocess.STDOUT, text=True, timeout=1200)
-    out = p.stdout
-    bad, used = {}, set()
-    seen = set()
-    # messages look like: 'Bads.foo' depends on axioms: [propext, Quot.sound]   or   'Bads.foo' does not depend on any axioms
-    for m in re.finditer(r"'([^']+)' (depends on axioms: \[([^\]]*)\]|does not depend on any axioms)", out, flags=re.S):
-        name = m.group(1)
-        seen.add(name)
-        axs = set(a.strip() for a in (m.group(3) or "").replace("\n", " ").split(",") if a.strip())
-        used |= axs
-        extra = axs - ALLOWED_AXIOMS
-        if extra:
-            bad[name] = "axioms: " + ", ".join(sorted(extra))
-    for t in thms:
-        if t not in seen:
+    def once():
+        p = subprocess.run(["lake", "env", "lean", afile], cwd=LEAN_DIR, stdout=subprocess.PIPE, stderr=subprocess.STDOUT, text=True, timeout=1200)
+        out = p.stdout
+        bad, used = {}, set()
+        seen = set()
+        # messages look like: 'Bads.foo' depends on axioms: [propext, Quot.sound]   or   'Bads.foo' does not depend on any axioms
+        for m in re.finditer(r"'([^']+)' (depends on axioms: \[([^\]]*)\]|does not depend on any axioms)", out, flags=re.S):
+            name = m.group(1)
+            seen.add(name)
+            axs = set(a.strip() for a in (m.group(3) or "").replace("\n", " ").split(",") if a.strip())
+            used |= axs
+            extra = axs - ALLOWED_AXIOMS
+            if extra:
+                bad[name] = "axioms: " + ", ".join(sorted(extra))
+        missing = [t for t in thms if t not in seen]
+        for t in missing:
             bad[t] = "not checked (missing from audit output)"
-    if p.returncode != 0 and not bad:
-        bad["<audit>"] = out[-500:]
+        if p.returncode != 0 and not bad:
+            bad["<audit>"] = out[-500:]
+        return bad, used, missing, p.returncode
+
+    bad, used, missing, rc = once()
+    if missing or rc != 0:
+        # a concurrent build may have been rewriting the compiled modules: rebuild this property's modules and audit once more
+        import time as _t
+        _t.sleep(2)
+        subprocess.run(["lake", "build"] + [f"BadsProofs.Props.{m}" for m in mods], cwd=LEAN_DIR, stdout=subprocess.PIPE, stderr=subprocess.STDOUT, text=True, timeout=3000)
+        bad, used, missing, rc = once()
     for h in grep_forbidden():
         bad["<grep> " + h] = "forbidden token in Lean sources"
     return len(thms), len([t for t in thms if t not in bad]), bad, sorted(used), thms
